@@ -34,7 +34,7 @@ func init() {
 			"(R06.5) the text of a token is cleanupToken(position in line, word) computed at its own position; (R03.7) Copyright literals; (R06.2) Copyright pseudo-matches are kept apart from the overlap filter - fails today (known finding D12). Regex coverage of notice templates and list markers is NOT decided."})
 	register(&Check{ID: "C11", Modules: []string{"v2"}, Run: runC11,
 		Explanation: "Thin structural clauses behind 'Normalize lines up with Match': (R11.1) non-interference: the line counter and every Line stored do not depend on the normalize/updateDict flags; (R11.2) Normalize and match use the same tokenizeStream and Normalize returns memory allocated by the call; (R11.3) the ignorable-line patterns are case-insensitive (Normalize sees un-lowered text); " +
-			"(R11.4) number clean-up cannot leave a trailing dot (idempotence under re-tokenisation); (R06.1) word-table idempotence. Newline re-emission and header re-cleaning are NOT decided."})
+			"(R11.4) number clean-up cannot leave a trailing dot (idempotence under re-tokenisation); (R11.5) every word Normalize writes out is tested not to be the end-of-line token (sibling consistency: newlines come only from line numbers); (R06.1) word-table idempotence. Header re-cleaning is NOT decided."})
 	register(&Check{ID: "C17", Modules: []string{""}, Run: runC17,
 		Explanation: "Thin structural clauses behind 'v1 offsets delimit real text': (R17.1) every contribution to a token's Text is the input substring s[i:i+size] at the decoded rune's position, or string(r) only under a guard that excludes the invalid-rune replacement; Offset is that i; (R17.2) candidate ranges are sorted by target position before they are untangled; " +
 			"(R17.3) the string that is tokenised is the string offsets are later applied to. Range merging/coalescing bounds are NOT decided."})
@@ -788,6 +788,10 @@ func runC11(c *Ctx) {
 		fresh := len(ret) > 0 && ret[0]&^eng.Fresh == 0
 		c.R.Check(fresh, "R11.2", "Normalize returns memory allocated by the call", p.Pos(nz.Pos()), "result provenance "+provOf(ret), "result provenance "+provOf(ret)+": the returned bytes are shared (pooled buffer, classifier state or the input), so a later call can rewrite an earlier result")
 	}
+	// R11.5 end-of-line tokens are never written out as words
+	if nz != nil {
+		checkNormalizeEOLGuard(c, p, nz)
+	}
 	// R11.3
 	pats, ok := globalRegexTable(p, v2pkg, "ignorableTexts")
 	if !ok || len(pats) == 0 {
@@ -1168,4 +1172,44 @@ func sliceFamilyThrough(v ssa.Value) map[ssa.Value]bool {
 func isString(t types.Type) bool {
 	b, ok := t.Underlying().(*types.Basic)
 	return ok && b.Info()&types.IsString != 0
+}
+
+// checkNormalizeEOLGuard: R11.5. Normalize re-creates line breaks from the tokens' line numbers; the
+// end-of-line tokens themselves must never be written as text. Every write of a dictionary word into
+// the output must therefore be dominated by the test `word != eol` (sibling consistency: the loop
+// body has the test; any write without it emits an extra newline and shifts every following line).
+func checkNormalizeEOLGuard(c *Ctx, p *core.Prog, nz *ssa.Function) {
+	eolG := p.Global(v2pkg, "eol")
+	getWord := p.Func(v2pkg, "(*dictionary).getWord")
+	if !c.R.Anchor(eolG != nil, "v2.eol") || !c.R.Anchor(getWord != nil, "v2.(*dictionary).getWord") {
+		return
+	}
+	n := 0
+	for _, call := range core.CallsIn(nz) {
+		if core.StaticCalleeName(call.Common()) != "(*bytes.Buffer).WriteString" && core.StaticCalleeName(call.Common()) != "(*strings.Builder).WriteString" {
+			continue
+		}
+		w, isCall := call.Common().Args[1].(*ssa.Call)
+		if !isCall || w.Call.StaticCallee() != getWord {
+			continue
+		}
+		n++
+		guarded := false
+		for _, f := range core.FactsAtInstr(call) {
+			cmp, ok := f.AsCmp()
+			if !ok || cmp.Op != token.NEQ {
+				continue
+			}
+			isEOL := func(v ssa.Value) bool {
+				u, ok := v.(*ssa.UnOp)
+				return ok && u.Op == token.MUL && u.X == ssa.Value(eolG)
+			}
+			if s, isS := core.ConstString(cmp.Y); (cmp.X == ssa.Value(w) && (isEOL(cmp.Y) || (isS && s == "\n"))) || (cmp.Y == ssa.Value(w) && isEOL(cmp.X)) {
+				guarded = true
+			}
+		}
+		c.R.Check(guarded, "R11.5", "Normalize: a word is written out only after it was tested not to be the end-of-line token", p.Pos(call.Pos()),
+			"dominated by word != eol", "a token's text is written without the end-of-line test that the main loop applies: when that token is an end-of-line token (input starting with a blank or removed line) an extra newline is emitted and every following line of the output is shifted against the line numbers Match reports")
+	}
+	c.R.RequireMin("R11.5", "words written by Normalize", n, 1)
 }
